@@ -201,6 +201,17 @@ def handout_phase(spec):
             tree = ragged_table(rng)
         else:
             tree = gen.Textbook(rng, max_depth=rng.choice([2, 3]), p_ident=0.5).expression()[0]
+            if rng.random() < 0.12:
+                # author intents whose value contains LITERALS (a number, a name): the library makes up nodes for them while it builds the
+                # intent tree; whatever is spoken for them, a mark in the speech must still name an id of the returned MathML
+                hosts = [n for n, _ in tree.walk() if n.tag in ("msup", "msub", "mfrac", "mover") and n.kids and len(n.kids) == 2]
+                leaves = [n for n, _ in tree.walk() if n.kids is None and n.tag == "mi"]
+                if hosts and rng.random() < 0.6:
+                    h = rng.choice(hosts)
+                    h.kids[0].attrs["arg"] = "a"
+                    h.attrs["intent"] = rng.choice(["power($a,2)", "blorp($a, 3)", "foo:prefix($a, 17)", "index($a,k)", "zorble(x,$a)"])
+                elif leaves:
+                    rng.choice(leaves).attrs["intent"] = rng.choice(["pi", "blorp", "17", "my-constant"])
         if rng.random() < 0.5:
             k = 0
             special = rng.random() < 0.5
